@@ -230,6 +230,8 @@ def check_paths(ctx):
                 break
             except ValueError:
                 continue
+        if paths:
+            check_rays_roundtrip(ctx, paths, code + ":" + "".join(str(int(b)) for b in (setup[1] or ())) if len(setup) > 1 and setup[1] else code)
         lines = [f"pathspec {code} {w}" for w in words]
         answers = ctx.drive(lines) if ctx.lean.driver_ok and not ctx.oracle_only else [None] * len(words)
         for w, a in zip(words, answers):
@@ -288,6 +290,44 @@ def check_paths(ctx):
                     tr = itf.transmission_reflection.name if itf.transmission_reflection is not None else None
                     if tr is not None and tr != ("transmission" if crosses else "reflection"):
                         ctx.violate(f"path {w} ({code}), interface {k}: declared {tr} although the medium {'changes' if crosses else 'does not change'}", cj, {"kind": "trans_refl"})
+
+
+def check_rays_roundtrip(ctx, paths, code):
+    """'reversing a path twice gives back the same ... rays': on real (small) geometry, also when the path was already
+    reversed once before it was traced, and when it is traced a second time"""
+    import arim.ray as ray
+
+    def rev(p_):
+        try:
+            return p_.reverse()
+        except ValueError:
+            return None    # contact paths with an unspecified interface kind cannot be reversed
+
+    early = {w: rev(p_) for w, p_ in paths.items()}            # reversed before any ray exists
+    for rnd in range(2):
+        ray.ray_tracing_for_paths(list(paths.values()), convert_to_fortran_order=bool(rnd))
+        for w, p_ in paths.items():
+            cj = {"op": "reverse_rays", "setup": code, "word": w, "round": rnd}
+            r = rev(p_)
+            if r is None:
+                continue
+            rr = rev(r)
+            ctx.case(("revrays", code, w, rnd), True)
+            t, ix = p_.rays.times, p_.rays.indices
+            if r.rays is None or rr is None or rr.rays is None:
+                ctx.violate(f"path {w} ({code}): the path is traced but its reversal (or double reversal) carries no rays "
+                            f"(a reversal of the same path was requested before tracing; round {rnd})", cj, {"kind": "reverse_rays"})
+                continue
+            ok1 = np.array_equal(r.rays.times, t.T) and np.array_equal(r.rays.indices, np.swapaxes(ix[::-1], 1, 2))
+            ok2 = np.array_equal(rr.rays.times, t) and np.array_equal(rr.rays.indices, ix)
+            if not ok1:
+                ctx.violate(f"path {w} ({code}): the rays of the reversed path are not the same rays travelled backwards (times transposed, points in reverse order)", cj, {"kind": "reverse_rays"})
+            if not ok2:
+                ctx.violate(f"path {w} ({code}): reversing twice does not give back the same rays", cj, {"kind": "reverse_rays"})
+            if [id(i.points) for i in rr.interfaces] != [id(i.points) for i in p_.interfaces] or list(rr.modes) != list(p_.modes) or list(rr.materials) != list(p_.materials):
+                ctx.violate(f"path {w} ({code}): reversing twice does not give back the same interfaces / modes / materials", cj, {"kind": "reverse_twice"})
+    for p_ in paths.values():
+        p_.rays = None
 
 
 def check_views(ctx):
